@@ -374,7 +374,8 @@ class Lowerer:
             return 'int'
         if re.match(r'^(muscle::)?[A-Za-z_][A-Za-z0-9_:]*$', s) and ('::' in s2 and s2.split('::')[0] in [r.split('::')[-1] for r in self.records]):
             return 'int'   # nested enum of a known class
-        if s2 in self.declared_records() or s in self.declared_records():
+        dr = self.declared_records()
+        if s2 in dr or s in dr or s.replace(' ', '') in self._declrecs_nospace or s2.replace(' ', '') in self._declrecs_nospace or ('<' in s and s.split('<')[0].replace('muscle::', '') in self._decl_templates):
             sn = san(s)
             self.struct_defs.setdefault(sn, None)    # incomplete type: usable through pointers only
             return 'struct ' + sn
@@ -389,6 +390,9 @@ class Lowerer:
                     if rn:
                         self._declrecs.add(rn)
                         self._declrecs.add(rn.replace('muscle::', ''))
+            self._declrecs_nospace = set(x.replace(' ', '') for x in self._declrecs)
+            # class templates known by name: any specialization that is only used through pointers is an incomplete type
+            self._decl_templates = set(n.get('name') for n in self.byid.values() if n.get('kind') == 'ClassTemplateDecl' and n.get('name'))
         return self._declrecs
 
     def enum_names(self):
@@ -451,7 +455,11 @@ class Lowerer:
             try:
                 if f.get('isBitfield'):
                     raise Unsupported('bitfield')
-                lines.append('  %s;' % self.ctype(f['type'], f['name']))
+                decl = self.ctype(f['type'], f['name'])
+                m = re.match(r'^struct (\w+) (\w+)(\[\d+\])*$', decl)
+                if m and self.struct_defs.get(m.group(1), '') is None:
+                    raise Unsupported('by-value member of a type that is only known as an incomplete (opaque) type')
+                lines.append('  %s;' % decl)
             except Unsupported as e:
                 lines.append('  char __opaque_%s[8];' % f['name'])
                 self.blobs.append('%s: field %s (%s)' % (rn, f['name'], e))
@@ -1527,7 +1535,18 @@ class Lowerer:
             if ctor is not None and not self.trivially_copyable(et):
                 raise Unsupported('array new of non-trivial element type ' + elem)
             return '((%s *)mv_new_array(%s, sizeof(%s)))' % (self.ctype(et), self.expr(size), self.ctype(et))
-        raise Unsupported('non-array new')
+        # `new T(args)` of a class type: an opaque allocate-and-construct function (may return NULL)
+        rn, rec = self.find_record(elem)
+        if rec is not None or elem.replace('muscle::', '') in self.declared_records() or '<' in elem:
+            nm = 'mv_new_' + san(elem)
+            if nm not in self.externs:
+                self.externs[nm] = '%s *%s(void);' % (self.ctype(et), nm)
+            if getattr(self, 'cur_name', None):
+                self.edges.setdefault(self.cur_name, set()).add(nm)
+            if any(self.strip(c).get('kind') == 'CXXConstructExpr' and self.children(self.strip(c)) for c in ch):
+                raise Unsupported('new with constructor arguments')
+            return '%s()' % nm
+        raise Unsupported('non-array new of ' + elem)
 
     def delete(self, n, ch):
         arg = ch[0]
